@@ -87,6 +87,9 @@ def judge(ctx, cases):
         cell = b["cell"]
         if cell.startswith("parent="):
             cell = "parent=%s left=%s right=%s" % tuple(b["tri"])
+        elif ev["k"] == "txt":
+            # parsed text: the operator triple of the tree the text denotes (TLC: Intended), "not" variants kept apart
+            cell = "text parent=%s left=%s right=%s" % tuple(b["tri"])
         recs.append(record(b, ev, cell))
     if pathdev:
         shrunk, info = shrink_paths(ctx, pathdev)
